@@ -11,8 +11,9 @@
 (*   cover  classes of the definition that were exercised  -> non-vacuity                  *)
 EXTENDS FeeMarket
 
-VARIABLES l, viol, div, nscn, blk, notes, cover, nspoke
-tvars == <<st, hist, bnd, l, viol, div, nscn, blk, notes, cover, nspoke>>
+\* gh (declared in FeeMarket) is the recorded history: see GhostNext / SeqOK there
+VARIABLES l, viol, div, nscn, notes, cover, nspoke
+tvars == <<st, hist, bnd, gh, l, viol, div, nscn, notes, cover, nspoke>>
 
 Trace == ndJsonDeserialize("trace.ndjson")
 
@@ -23,7 +24,7 @@ Note(kind, class, e) == [kind |-> kind, class |-> class, scn |-> e.scn, line |->
 
 TraceInit ==
     /\ l = 1 /\ viol = {} /\ div = {} /\ nscn = 0 /\ notes = {} /\ cover = {} /\ nspoke = 0
-    /\ blk = [sum |-> "0", clean |-> FALSE]
+    /\ gh = [sum |-> "0", clean |-> FALSE, base |-> "0", fig |-> "0", known |-> FALSE, after |-> "init"]
     /\ st = [phase |-> "none"] /\ hist = <<>> /\ bnd = 0
 
 ---------------------------------------------------------------------------
@@ -75,19 +76,12 @@ CalcSpoke(e) == Cardinality({i \in 1..Len(e.args.gs) : CalcSpeaks(RowArgs(e, i))
 ---------------------------------------------------------------------------
 (* block-sequence lines *)
 
-\* the block-level statement: the gas figure is max(sum of the gas the block's transactions
-\* declared x multiplier, gas used) - the ghost sum is taken from the ante arguments, not from
-\* the transient store
-BlockFigureOK(e, s, t) ==
-    (e.ev = "end_block" /\ blk.clean /\ PEnabled(s.params, s.height)
-       /\ PGasDomain(blk.sum) /\ PGasDomain(e.args.used))
-        => BigEq(t.bgw, PGasFigure(blk.sum, s.params.minGasMultiplier, e.args.used))
-
 StepViol(e, s, t) ==
     (IF StepOK(e, s, t) THEN {}
      ELSE {Sig((IF e.ok THEN "step:" ELSE "failed-step:") \o e.ev, StepClass(e, s), e)})
     \cup (IF FloorKept(e, s, t) THEN {} ELSE {Sig("begin_block:floor", StepClass(e, s), e)})
-    \cup (IF BlockFigureOK(e, s, t) THEN {} ELSE {Sig("block:gas-figure", StepClass(e, s), e)})
+    \cup (IF BlockFigureOK(gh, e, s, t) THEN {} ELSE {Sig("block:gas-figure", StepClass(e, s), e)})
+    \cup (IF SeqOK(gh, e, s, t) THEN {} ELSE {Sig("sequence:base-fee", SeqClass(gh, e, s), e)})
 
 StepNotes(e, s, t) ==
     (IF e.ev = "begin_block" /\ ~e.ok /\ ~BeginSpeaks(ArgsOfState(s, e.args.height))
@@ -99,14 +93,9 @@ StepNotes(e, s, t) ==
     \cup (IF e.ev = "end_block" /\ PEnabled(s.params, s.height) /\ ~EndBlockInDomain(s, e.args.used)
              /\ ~BigEq(t.bgw, PGasFigure(s.tgw, s.params.minGasMultiplier, e.args.used))
           THEN {Note("end_block-keeps-stale-figure", "gas>int64", e)} ELSE {})
+    \cup (IF e.ev \in Boundaries /\ ~e.ok THEN {Note("failed:" \o e.ev, StepClass(e, s), e)} ELSE {})
     \cup (IF e.ev = "ante" /\ e.ok /\ PEnabled(s.params, s.height) /\ ~BigEq(t.tgw, BigAdd(s.tgw, e.args.gas))
           THEN {Note("transient-gas-wanted-wraps-uint64", "gas>int64", e)} ELSE {})
-
-NextBlk(e) ==
-    CASE e.ev = "begin_block" -> [sum |-> "0", clean |-> e.ok]
-      [] e.ev = "ante"        -> IF e.ok THEN [blk EXCEPT !.sum = BigAdd(@, e.args.gas)] ELSE blk
-      [] e.ev = "set_params"  -> [blk EXCEPT !.clean = FALSE]
-      [] OTHER                -> blk
 
 ---------------------------------------------------------------------------
 
@@ -116,7 +105,7 @@ TraceNext ==
        /\ l' = l + 1
        /\ UNCHANGED <<hist, bnd>>
        /\ CASE e.ev = "calc" ->
-                 /\ st' = st /\ blk' = blk /\ nscn' = nscn + 1
+                 /\ st' = st /\ gh' = gh /\ nscn' = nscn + 1
                  /\ viol' = viol \cup CalcViol(e)
                  /\ div' = div \cup CalcDiv(e)
                  /\ notes' = AddNotes(notes, CalcNotes(e))
@@ -124,11 +113,11 @@ TraceNext ==
                  /\ nspoke' = nspoke + CalcSpoke(e)
             [] e.ev = "reset" ->
                  /\ st' = e.post /\ nscn' = nscn + 1
-                 /\ blk' = [sum |-> "0", clean |-> FALSE]
+                 /\ gh' = GhostInit(e.post)
                  /\ UNCHANGED <<viol, div, notes, cover, nspoke>>
             [] OTHER ->
                  /\ st' = e.post /\ nscn' = nscn
-                 /\ blk' = NextBlk(e)
+                 /\ gh' = GhostNext(gh, e, st, e.post)
                  /\ viol' = viol \cup StepViol(e, st, e.post)
                  /\ div' = div \cup
                       (LET r == MResult(st, e.ev, e.args) IN
@@ -137,6 +126,8 @@ TraceNext ==
                               what |-> IF r.ok # e.ok THEN "ok/err" ELSE "post-state"]})
                  /\ notes' = AddNotes(notes, StepNotes(e, st, e.post))
                  /\ cover' = cover \cup {e.ev \o ":" \o StepClass(e, st) \o (IF e.ok THEN "" ELSE ":failed")}
+                                   \cup (IF e.ev = "begin_block" /\ gh.known /\ BeginSpeaks(SeqArgs(gh, st, e.args.height))
+                                         THEN {"sequence:" \o SeqClass(gh, e, st)} ELSE {})
                  /\ nspoke' = nspoke + (IF e.ev = "begin_block" /\ BeginSpeaks(ArgsOfState(st, e.args.height)) THEN 1 ELSE 0)
 
 TraceSpec == TraceInit /\ [][TraceNext]_tvars
